@@ -28,8 +28,9 @@ from .base import (
     NostrQuery,
     ValidationError,
 )
+from ..auth import Action
 from ..config import Config
-from ..errors import StorageError
+from ..errors import StorageError, AuthenticationError
 
 
 # ids: b'\x00<32 bytes of id>'
@@ -677,6 +678,11 @@ class LMDBStorage(BaseStorage):
             raise StorageError("invalid: Bad JSON")
 
         await self.validate_event(event, Config)
+        # check authentication (the relay's own service events are always saved)
+        if event.pubkey != self.service_pubkey and not await self.authenticator.can_do(
+            auth_token, Action.save.value, event
+        ):
+            raise AuthenticationError("restricted: permission denied")
 
         if not event.is_ephemeral:
             with self.db.begin(buffers=True) as txn:
